@@ -15,15 +15,16 @@ from .common import chunks
 ID = "C17"
 RULE = (
     "configurations: default + every injective assignment departing from it in <=1 (thorough <=2) of the 8 identifiers, each "
-    "departure over the pool {$$ @@ ## ~~ ^^ % %% $% %$ $@ @$, the other identifiers' defaults, *~ for the keys selector, "
-    "| and & swapped}; 34 query templates using every identifier in every position (root, nested root, current node, current "
+    "departure over the pool {$$ @@ ## ~~ ^^ % %% $% %$ $@ @$ _@ _$, operator-initial <~ <|> =&, the other identifiers' defaults, *~ for the keys selector, "
+    "| and & swapped}; 37 query templates using every identifier in every position (root, nested root, current node, current "
     "key, filter context, keys selector shorthand/bracketed/after '..'/in lists, fake root, union, intersection) rendered with "
     "the configuration's spellings, on 8 documents x 2 filter contexts; result must equal the default environment on the "
     "default spelling, and env.compile(str(env.compile(q))) must evaluate identically. "
     "state = distinct (configuration, template, document); non-trivial = non-empty result"
 )
 ASSUMPTIONS = [
-    "admissible spellings: strings over $ @ # ~ ^ % of length <= 3, single | and &, '*~' for the keys selector only (DESIGN 1a)",
+    "admissible spellings: strings over $ @ # ~ ^ % of length <= 3, '_@' and '_$' (not for the keys selector: '._' is a member-name shorthand), single | and &, '*~' and '<~' for the keys "
+    "selector only, '<|>' and '=&' for union/intersection only (DESIGN 1a: no spelling that makes some text ambiguous)",
     "the default environment on the default spelling is the reference (its own conformance is C01/C02/C13's subject)",
 ]
 
@@ -33,16 +34,21 @@ DEFAULTS = {"root_token": "$", "self_token": "@", "key_token": "#", "filter_cont
             "fake_root_token": "^", "union_token": "|", "intersection_token": "&"}
 SPELL_KEY = {"root_token": "$", "self_token": "@", "key_token": "#", "filter_context_token": "_", "keys_selector_token": "~",
              "fake_root_token": "^"}
-POOL = ["$$", "@@", "##", "~~", "^^", "%", "%%", "$%", "%$", "$@", "@$", "%%%", "#~", "^$"]
+POOL = ["$$", "@@", "##", "~~", "^^", "%", "%%", "$%", "%$", "$@", "@$", "%%%", "#~", "^$",
+        # the default filter-context spelling (a name character) as a proper prefix of a spelling that is not a name
+        "_@", "_$"]
 DEF_SWAP = ["$", "@", "#", "~", "^"]
 
 
 def pool_for(ident, departures):
     p = list(POOL)
+    # spellings that begin with a comparison-operator character, for the identifiers that never stand where an operator
+    # can (after '.' or '[', or between two queries) - so no text is ambiguous
     if ident == "keys_selector_token":
-        p.append("*~")
+        # (and not '_@' / '_$': after a dot, '._' is the RFC's shorthand for a member named '_')
+        p = [x for x in p if not x.startswith("_")] + ["*~", "<~"]
     if ident in ("union_token", "intersection_token"):
-        p += ["|", "&"]
+        p += ["|", "&", "<|>", "=&"]
     if departures >= 2:
         p += DEF_SWAP
     return [x for x in p if x != DEFAULTS[ident]]
@@ -135,6 +141,9 @@ def templates():
         Q(A, C(F(("cmp", "==", qa(), ("q", Q(C(I(0)), C(N("k")), root="^")))))),
         Q(O, C(F(("or", ("and", ("cmp", "==", KEY, L("a")), ("cmp", ">", qa(), qc(C(N("lim"))))), ("cmp", "==", qr(C(N("k"))), L(3)))))),
         Q(A, C(F(("not", ("test", at(C(N("a")))))))),
+        # the current key as an argument of type-checked functions
+        Q(O, C(F(("cmp", "==", ("call", "length", [KEY]), L(1))))), Q(O, C(F(("call", "match", [KEY, L("a.?")])))),
+        Q(A, C(F(("cmp", "==", ("call", "value", [qa(C(N("a")))]), KEY)))),
     ]
     out = [[(None, q)] for q in simple]
     a, b, c = Q(C(N("k"))), Q(C(N("o")), C(W)), Q(A, C(I(0)))
